@@ -144,6 +144,9 @@ class BuiltinsMixin:
                 cur = cur.arg(0)
                 continue
             break
+        bf = self.base_facts.get(cur.get_id())
+        if bf is not None:
+            bf(kk)
         ent = self.merged_dicts.get(cur.get_id())
         if ent is None:
             return
@@ -198,6 +201,15 @@ class BuiltinsMixin:
                     return h(args, kwargs, star=star)
                 self.unsupported(f'symbolic *args to builtin {name}', node)
             args = list(args) + its
+        if dstar is not None:
+            if name in ('functools.partial', 'ft.partial'):
+                return h(args, kwargs, dstar=dstar)
+            ks = self.concrete_keys(dstar)
+            if ks is None:
+                self.unsupported(f'symbolic **kwargs to builtin {name}', node)
+            kwargs = dict(kwargs)
+            for k in ks:
+                kwargs[smt.simp(Val.s(k)).as_string()] = self.dict_get(dstar, k)
         return h(args, kwargs)
 
     def bi_len(self, args, kwargs):
@@ -539,6 +551,10 @@ class BuiltinsMixin:
                 if r is not NotImplemented:
                     return r
             self.unsupported(f'method {name}', node)
+        if getattr(h, 'takes_star', False):
+            return h(recv, args, kwargs, star, dstar)
+        if getattr(h, 'takes_star', False):
+            return h(recv, args, kwargs, star, dstar)
         if star is not None:
             its = self.seq_items(self.get_seq(star))
             if its is None:
